@@ -167,7 +167,7 @@ func namesDeclaration(stderr string) bool {
 			return true
 		}
 	}
-	return false
+	return namesCLI(stderr)
 }
 
 // pinnedC13: reproducers of the defects repaired by fix: commits (see known-findings.txt); they must keep
